@@ -86,6 +86,12 @@ pub fn run(i: &Input) -> Result<(), String> {
                           tail: if g.b() { Some(g.settings(false)) } else { None }, last: 1 + g.n(65535) as u16 }),
         4 => rt(&g.choice()),
         5 => rt(&[PEnum::One, PEnum::Two, PEnum::Three][g.n(3) as usize]),
+        7 => {
+            // BIT STRING incl. the empty one and lengths around octet boundaries
+            let bits = [0u64, 1, 7, 8, 9, 15, 16, 17, 64, 100][g.n(10) as usize];
+            let bytes: Vec<u8> = (0..(bits + 7) / 8).map(|k| 0xA5u8.wrapping_mul(k as u8 + 1) | 0x80).collect();
+            rt(&PBits { b: BitVec::from_bytes(bytes, bits) })
+        }
         _ => rt(&PHolder { pick: g.choice(), kind: [PEnum::One, PEnum::Two, PEnum::Three][g.n(3) as usize], more: (0..g.n(3)).map(|_| g.choice()).collect() }),
     }
 }
@@ -184,8 +190,8 @@ pub fn search_dec(seed: u64, budget: u64, try_one: &mut dyn FnMut(Input) -> bool
 }
 
 pub fn search(budget: u64, try_one: &mut dyn FnMut(Input) -> bool) {
-    for seed in 0..(budget / 7).min(1500) {
-        for kind in 0..7 {
+    for seed in 0..(budget / 8).min(1500) {
+        for kind in 0..8 {
             if try_one(Input::new("proto_zoo").v(kind).v(seed)) {
                 return;
             }
